@@ -7,6 +7,7 @@ package main
 
 import (
 	"fmt"
+	"os"
 	"time"
 
 	"verif/lib/dbh"
@@ -40,6 +41,8 @@ func main() {
 			{"core-skiplist", small, core, 3, 4, 7, true, true, false},
 			{"wide-art", dbh.Config{Engine: "art", Buckets: 2, VlogFileSize: 120}, wide, 2, 3, 5, false, true, false},
 			{"deep-macro", small, core[:2], 3, 7, 10, false, false, true},
+			// two prefix-related keys: tables with disjoint and overlapping key ranges in L0
+			{"twokey-macro", small, []string{"set:d:a:s", "set:d:ab:s", "del:d:ab"}, 4, 4, 8, false, false, true},
 		}
 	} else {
 		cfgs = []config{
@@ -48,7 +51,17 @@ func main() {
 			{"wide-skiplist", small, wide, 3, 4, 7, true, true, false},
 			{"wide-art", dbh.Config{Engine: "art", Buckets: 2, VlogFileSize: 120}, wide, 3, 3, 6, false, true, false},
 			{"deep-macro", small, core, 5, 10, 15, true, true, true},
+			{"twokey-macro", small, []string{"set:d:a:s", "set:d:ab:s", "del:d:ab", "del:d:a"}, 5, 6, 11, false, true, true},
 		}
+	}
+	if only := os.Getenv("VERIF_ONLY_CONFIG"); only != "" { // debugging aid: restrict to one configuration
+		var keep []config
+		for _, c := range cfgs {
+			if c.Name == only {
+				keep = append(keep, c)
+			}
+		}
+		cfgs = keep
 	}
 	if r.ReplayPath != "" {
 		var rp struct {
@@ -63,7 +76,7 @@ func main() {
 	total := r.RunSharded(vr.Workers(), func(sh vr.ShardInfo, p *vr.Partial) {
 		for ci, c := range cfgs {
 			params := &kvseq.Params{Cfg: c.Cfg, ClientOps: c.Ops, MaxClient: c.MaxClient, MaxMaint: c.MaxMaint,
-				WithGC: c.GC, WithReopen: c.Reopen, Macro: c.Macro, Dedup: true, BaseDir: fmt.Sprintf("%s/s%d-c%d", base, sh.Index, ci)}
+				WithGC: c.GC, WithReopen: c.Reopen, Macro: c.Macro, Dedup: true, RichSig: true, BaseDir: fmt.Sprintf("%s/s%d-c%d", base, sh.Index, ci)}
 			sub := vr.NewPartial()
 			// every configuration gets an equal share of what is left of the budget
 			share := time.Now().Add(r.Remaining() / time.Duration(len(cfgs)-ci))
@@ -121,7 +134,7 @@ func replay(r *vr.Run, cfgs []config, name string, path []string) {
 		if c.Name != name {
 			continue
 		}
-		params := &kvseq.Params{Cfg: c.Cfg, ClientOps: c.Ops, MaxClient: 99, MaxMaint: 99, WithGC: c.GC, WithReopen: c.Reopen, Macro: c.Macro, BaseDir: r.Scratch()}
+		params := &kvseq.Params{Cfg: c.Cfg, ClientOps: c.Ops, MaxClient: 99, MaxMaint: 99, WithGC: c.GC, WithReopen: c.Reopen, Macro: c.Macro, RichSig: true, BaseDir: r.Scratch()}
 		in := kvseq.New(params)
 		defer in.Close()
 		for i, op := range path {
